@@ -8,11 +8,10 @@ from vlib.common import PROVED, REFUTED, UNKNOWN
 
 # finding id -> obligations it covers (a REFUTED obligation is `refuted-known` only while the id is listed as known).  The companion
 # obligation `<name>[outside the regions of the recorded findings]` is never matched here: refuted there = VIOLATION.
+# (repaired in /repo, `fixed` records suppress nothing: read_data_page.levels.declared_encoding_is_the_one_decoded f1984b1,
+#  read_data_page.values.rle_boolean.runs_start_after_length_prefix c8ef5ea, read_data_page.values.dictionary.width_byte_consumed efe7e45)
 KNOWN = [
     ("C03-P-dictionary-page-encoding-ignored", re.compile(r"^read_dictionary_page\.non_plain_dictionary_page_raises$")),
-    ("C03-P-v1-bit-packed-levels-decoded-as-rle", re.compile(r"^read_data_page\.levels\.declared_encoding_is_the_one_decoded$")),
-    ("C03-P-v1-rle-boolean-length-prefix", re.compile(r"^read_data_page\.values\.rle_boolean\.runs_start_after_length_prefix$")),
-    ("C03-P-v1-dictionary-boolean-width-byte", re.compile(r"^read_data_page\.values\.dictionary\.width_byte_consumed$")),
     ("C03-P-v2-delta-nulls", re.compile(r"^read_data_page_v2\.supported_page_is_not_refused@assert-L\d+$")),
     ("C03-P-v2-empty-values-section", re.compile(r"^(read_data_page_v2\.page_consumed_exactly|"
                                                  r"read_col\[\w+\]\.page_loop\.invariant_preserved\[cursor is at the start of page k[^\]]*\])$")),
